@@ -85,8 +85,12 @@ func StoreFacts(root *Node, t *Tokens) Facts {
 			f["ent/"+id+"/roles"] = ""
 			for k, v := range eb.K {
 				switch k {
-				case "name", "nick", "boss", "team":
+				case "name", "team":
 					f["ent/"+id+"/"+k] = t.Model(DecodeValue(v))
+				case "nickname": // stored key of the symbol nick
+					f["ent/"+id+"/nick"] = t.Model(DecodeValue(v))
+				case "bossId": // stored key of the symbol boss
+					f["ent/"+id+"/boss"] = t.Model(DecodeValue(v))
 				case "isSystem":
 					f["ent/"+id+"/sys"] = DecodeValue(v)
 				case "createdAt", "updatedAt":
